@@ -19,6 +19,7 @@ import (
 	"testing"
 
 	"github.com/libsv/go-bt/v2"
+	"github.com/libsv/go-bt/v2/bscript"
 	"pgregory.net/rapid"
 
 	"verif/harness/gen"
@@ -361,6 +362,7 @@ func checkEP(ctx *pbt.Ctx, c EP) error {
 			}
 			var keptBytes [][]byte
 			var wantBytes [][]byte
+			var keptElems []*bt.Tx // the element objects each decode left in the reused receiver
 			var want int64
 			for i := 0; i <= accepted && i < nTx+2; i++ {
 				tx := reused
@@ -393,6 +395,7 @@ func checkEP(ctx *pbt.Ctx, c EP) error {
 					// the receiver is reused for the next decode: keep a serialisation
 					keptBytes = append(keptBytes, tx.ExtendedBytes())
 					wantBytes = append(wantBytes, ref.Encode(items[i].d.Tx, true))
+					keptElems = append(keptElems, &bt.Tx{Version: tx.Version, LockTime: tx.LockTime, Inputs: append([]*bt.Input{}, tx.Inputs...), Outputs: append([]*bt.Output{}, tx.Outputs...)})
 				}
 				want += int64(items[i].d.Consumed)
 				if cr.n != want {
@@ -404,6 +407,9 @@ func checkEP(ctx *pbt.Ctx, c EP) error {
 			}
 			for i := range keptBytes {
 				if err := eqBytes(fmt.Sprintf("ExtendedBytes() taken from the reused receiver after decode %d, looked at after the last decode", i), keptBytes[i], wantBytes[i]); err != nil {
+					return err
+				}
+				if err := eqBytes(fmt.Sprintf("the input / output objects decode %d left in the reused receiver (%s), serialised after the last decode into that receiver", i, k.name), keptElems[i].ExtendedBytes(), wantBytes[i]); err != nil {
 					return err
 				}
 			}
@@ -698,6 +704,119 @@ func checkElements(ctx *pbt.Ctx, c EP) error {
 	if len(outs) > 0 {
 		ctx.Label("element-decodes: outputs")
 	}
+	return checkUsedReceivers(ctx, ins, outs, fmts, trail)
+}
+
+// resized returns variants of a script that are shorter than, as long as and longer than b.
+func resized(b []byte) [][]byte {
+	inv := make([]byte, len(b))
+	for i := range b {
+		inv[i] = ^b[i]
+	}
+	return [][]byte{b[:len(b)/2], inv, append(append([]byte{}, b...), 0x6a, 1, 2, 3, 4, 5, 6, 7, 8)}
+}
+
+type producedScript struct {
+	what string
+	obj  *bscript.Script // the script object a decode put into the receiver
+	id   []byte          // or the txid slice it put there
+	want []byte
+}
+
+// checkUsedReceivers decodes a stream of elements into ONE Input and ONE Output
+// object (binary decoders in both formats and json.Unmarshal, mixed), each element
+// followed by a shorter, an equally long and a longer variant of itself, and keeps
+// what every decode PRODUCED - the script objects and txid slices the library
+// allocated and put into the receiver. They are results of the earlier call: after the
+// last decode each of them must still hold the bytes that were on the wire.
+func checkUsedReceivers(ctx *pbt.Ctx, ins []ref.In, outs []ref.Out, fmts []bool, trail []byte) error {
+	var kept []producedScript
+	in := &bt.Input{}
+	step := 0
+	for i, base := range ins {
+		vs := []ref.In{base}
+		for _, u := range resized(base.Unlock) {
+			v := base
+			v.Unlock, v.UnlockNil = u, false
+			v.PrevScript, v.PrevNil = resized(base.PrevScript)[len(vs)%3], false
+			vs = append(vs, v)
+		}
+		for _, v := range vs {
+			ext := fmts[step%len(fmts)]
+			mode := []string{"binary", "binary", "json"}[(step+len(v.Unlock))%3]
+			step++
+			what := fmt.Sprintf("used Input receiver, decode %d (input %d, %s, extended=%v)", step, i, mode, ext)
+			if mode == "json" {
+				doc := fmt.Sprintf(`{"unlockingScript":"%x","txid":"%x","vout":%d,"sequence":%d}`, []byte(v.Unlock), []byte(v.TxID), v.Vout, v.Seq)
+				if err := json.Unmarshal([]byte(doc), in); err != nil {
+					return fmt.Errorf("%s: json.Unmarshal rejected %s: %v", what, doc, err)
+				}
+				if in.PreviousTxOutIndex != v.Vout || in.SequenceNumber != v.Seq || !bytes.Equal(in.PreviousTxID(), v.TxID) || in.UnlockingScript == nil || !bytes.Equal(*in.UnlockingScript, v.Unlock) {
+					return fmt.Errorf("%s: the decoded outpoint / sequence / unlocking script differ from the document %s", what, doc)
+				}
+			} else {
+				enc := refInput(v, ext)
+				r := bytes.NewReader(append(append([]byte{}, enc...), trail...))
+				var n int64
+				var err error
+				if ext {
+					n, err = in.ReadFromExtended(r)
+				} else {
+					n, err = in.ReadFrom(r)
+				}
+				if err != nil || n != int64(len(enc)) || r.Len() != len(trail) {
+					return fmt.Errorf("%s: err %v, reported %d of %d bytes, %d left in the reader (%d follow the input)", what, err, n, len(enc), r.Len(), len(trail))
+				}
+				if err := inputIs(what, in, v, ext); err != nil {
+					return err
+				}
+				if ext && in.PreviousTxScript != nil {
+					kept = append(kept, producedScript{what + ": previous script object", in.PreviousTxScript, nil, v.PrevScript})
+				}
+			}
+			kept = append(kept, producedScript{what + ": unlocking script object", in.UnlockingScript, nil, v.Unlock})
+			kept = append(kept, producedScript{what + ": txid slice", nil, in.PreviousTxID(), v.TxID})
+		}
+	}
+	out := &bt.Output{}
+	for i, base := range outs {
+		vs := []ref.Out{base}
+		for _, sc := range resized(base.Script) {
+			vs = append(vs, ref.Out{Sats: base.Sats ^ uint64(len(vs)), Script: sc})
+		}
+		for _, v := range vs {
+			mode := []string{"binary", "json", "binary"}[(step+len(v.Script))%3]
+			step++
+			what := fmt.Sprintf("used Output receiver, decode %d (output %d, %s)", step, i, mode)
+			if mode == "json" {
+				doc := fmt.Sprintf(`{"satoshis":%d,"lockingScript":"%x"}`, v.Sats, []byte(v.Script))
+				if err := json.Unmarshal([]byte(doc), out); err != nil {
+					return fmt.Errorf("%s: json.Unmarshal rejected %s: %v", what, doc, err)
+				}
+			} else {
+				enc := refOutput(v)
+				r := bytes.NewReader(append(append([]byte{}, enc...), trail...))
+				n, err := out.ReadFrom(r)
+				if err != nil || n != int64(len(enc)) || r.Len() != len(trail) {
+					return fmt.Errorf("%s: err %v, reported %d of %d bytes, %d left in the reader (%d follow the output)", what, err, n, len(enc), r.Len(), len(trail))
+				}
+			}
+			if out.Satoshis != v.Sats || out.LockingScript == nil || !bytes.Equal(*out.LockingScript, v.Script) {
+				return fmt.Errorf("%s: decoded value %d / script differ from the encoded %d / %s", what, out.Satoshis, v.Sats, head(v.Script))
+			}
+			kept = append(kept, producedScript{what + ": locking script object", out.LockingScript, nil, v.Script})
+		}
+	}
+	for _, k := range kept {
+		got := k.id
+		if k.obj != nil {
+			got = *k.obj
+		}
+		if !bytes.Equal(got, k.want) {
+			return fmt.Errorf("%s no longer holds what was decoded into it once the same receiver had decoded %d more elements: %s", k.what, step, firstDiff(got, k.want))
+		}
+	}
+	ctx.Labelf("used-receiver results kept: %s", cls(len(kept)))
 	return nil
 }
 
